@@ -3,14 +3,26 @@ import Model.Lazy
 
 /-! Driver for the `lazy` stream (C17).
 
-`run mode=lazy|normal B=<ms> I=<ms> span=<ms> edge=<ms> dd=<ms> script=<k:d:o1+o2,…|->`
+`run mode=lazy|normal B=<ms> I=<ms> span=<ms> dd=<ms> tol=<ms> jit=<ms> upto=<M> script=<k:d:o1+o2:p1+p2,…|->`
 
 The environment of the loop is scripted *relative to production starts* (so that the real run does
-not accumulate drift): the `k`-th production (0-based) lasts `d` ms (default `dd`) and
-`NotifyNewTransactions()` is called `o` ms after its start, for every listed offset `o`.
-The driver explores **every resolution of simultaneously ready `select` cases** and prints the set
-of admissible runs: `count=[lo,hi]` (productions started before `span`), the number of distinct
-runs and (at most four of) the runs as lists of production start times `< span+edge`. -/
+not accumulate drift): the `k`-th production (0-based) lasts `d` ms (default `dd`);
+`NotifyNewTransactions()` is called `o` ms after its start for every listed offset `o` (inside the
+production when `o < d`), and a *probe* — a pure time marker without any effect — is recorded `p` ms
+after its start for every listed `p`.
+
+Observation = the **order of events**: `L<k>`/`B<k>`/`N<k>` production `k` started from the lazy-timer
+case / the block-timer case / by the normal loop, `e<k>` it ended, `n<k>.<j>` the `j`-th notification
+of production `k`'s script was sent, `p<k>.<j>` its `j`-th probe passed; cut after the first `upto`
+events.  The real loop prints the order it went through.
+
+The driver prints the **set of admissible outcomes**: it explores every resolution of simultaneously
+ready `select` cases (`In.tick pick`), every interleaving of the events of one instant, and — `jit` —
+every delivery instant of a notification/probe within `jit` ms of its scripted time (the theorems of
+`Spec.C17` quantify over all arrival times and all picks, so each of them is a run of the model).
+A scenario whose events are well separated has exactly one outcome and the line is the same text on
+both sides; for a near-tie scenario the real outcome must be a member of the set.
+`runs=` lists the production start times of the admissible runs (used by the timing monitor). -/
 namespace Drv.C17
 open Lazy
 
@@ -18,6 +30,7 @@ structure PSpec where
   idx : Nat
   dur : Nat
   offs : List Nat
+  probes : List Nat
   deriving Repr, BEq
 
 def parseOffs (s : String) : List Nat :=
@@ -30,76 +43,138 @@ def parseScript (s : String) : Option (List PSpec) :=
     | [k, d, o] => do
       let k ← k.toNat?
       let d ← d.toNat?
-      some { idx := k, dur := d, offs := parseOffs o }
+      some { idx := k, dur := d, offs := parseOffs o, probes := [] }
+    | [k, d, o, p] => do
+      let k ← k.toNat?
+      let d ← d.toNat?
+      some { idx := k, dur := d, offs := parseOffs o, probes := parseOffs p }
     | _ => none
 
 def specOf (script : List PSpec) (k : Nat) : Option PSpec := script.find? (·.idx = k)
 def durOf (script : List PSpec) (dd k : Nat) : Nat := ((specOf script k).map (·.dur)).getD dd
 def offsOf (script : List PSpec) (k : Nat) : List Nat := ((specOf script k).map (·.offs)).getD []
+def probesOf (script : List PSpec) (k : Nat) : List Nat := ((specOf script k).map (·.probes)).getD []
 
-def insertSorted (t : Nat) : List Nat → List Nat
-  | [] => [t]
-  | x :: xs => if t ≤ x then t :: x :: xs else x :: insertSorted t xs
+/-- a scripted call of `NotifyNewTransactions` (`notif`) or a probe, to be delivered at some instant
+of `[lo, hi]`; `(k, j)` = its place in the script. -/
+structure Ev where
+  lo : Nat
+  hi : Nat
+  notif : Bool
+  k : Nat
+  j : Nat
+  deriving Repr, BEq
+
+def Ev.key (e : Ev) : List Nat := [e.hi, e.lo, if e.notif then 0 else 1, e.k, e.j]
+
+def lexLe : List Nat → List Nat → Bool
+  | [], _ => true
+  | _ :: _, [] => false
+  | a :: as, b :: bs => if a < b then true else if b < a then false else lexLe as bs
+
+/-- canonical order of the pending events (so that equal situations are equal values) -/
+def insertEv (e : Ev) : List Ev → List Ev
+  | [] => [e]
+  | x :: xs => if lexLe e.key x.key then e :: x :: xs else x :: insertEv e xs
+
+def Ev.tok (e : Ev) : String := (if e.notif then "n" else "p") ++ toString e.k ++ "." ++ toString e.j
 
 structure Sim where
   st : St
-  sched : List Nat      -- absolute times of the pending NotifyNewTransactions calls, ascending
+  sched : List Ev
   k : Nat               -- productions started so far
+  toks : List String    -- reversed
   starts : List Nat     -- reversed
   deriving BEq
 
-def tickWith (cfg : Cfg) (script : List PSpec) (dd : Nat) (sim : Sim) (pick : Nat) : Sim :=
-  let r := step cfg sim.st (.tick pick (durOf script dd sim.k))
+structure Env where
+  cfg : Cfg
+  script : List PSpec
+  dd : Nat
+  jit : Nat
+
+def mkEvs (jit p k : Nat) (notif : Bool) (offs : List Nat) : List Ev :=
+  (List.range offs.length).zip offs |>.map fun (j, o) =>
+    { lo := max p (p + o - jit), hi := p + o + jit, notif := notif, k := k, j := j }
+
+/-- one quantum of the loop goroutine (`Lazy.step … (.tick pick dur)`) + bookkeeping of the events -/
+def tickWith (e : Env) (sim : Sim) (pick : Nat) : Sim :=
+  let r := step e.cfg sim.st (.tick pick (durOf e.script e.dd sim.k))
   match r.2 with
-  | [] => { sim with st := r.1 }
+  | [] =>
+    match sim.st.flight, r.1.flight with
+    | some _, none => { sim with st := r.1, toks := ("e" ++ toString (sim.k - 1)) :: sim.toks }
+    | _, _ => { sim with st := r.1 }
   | p :: _ =>
+    let cause :=
+      if e.cfg.lazy then
+        match r.1.flight with
+        | some f => if f.viaBlock then "B" else "L"
+        | none => "?"
+      else "N"
+    let evs := mkEvs e.jit p sim.k true (offsOf e.script sim.k) ++ mkEvs e.jit p sim.k false (probesOf e.script sim.k)
     { st := r.1, k := sim.k + 1, starts := p :: sim.starts,
-      sched := (offsOf script sim.k).foldl (fun acc o => insertSorted (p + o) acc) sim.sched }
+      toks := (cause ++ toString sim.k) :: sim.toks,
+      sched := evs.foldl (fun acc ev => insertEv ev acc) sim.sched }
 
-/-- successors of one micro-step: a due notification is delivered first (delivering it later at the
-same instant is covered by the resolution choice), otherwise one loop quantum per ready case. -/
-def succs (cfg : Cfg) (script : List PSpec) (dd : Nat) (sim : Sim) : List Sim :=
-  match sim.sched with
-  | t :: rest =>
-    if t ≤ sim.st.now then [{ sim with st := (step cfg sim.st .notify).1, sched := rest }]
-    else branch
-  | [] => branch
-where
-  branch : List Sim :=
-    if sim.st.flight.isSome then [tickWith cfg script dd sim 0]
-    else
-      let n := (enabled cfg sim.st).length
-      if n ≤ 1 then [tickWith cfg script dd sim 0]
-      else (List.range n).map (tickWith cfg script dd sim)
+def deliver (e : Env) (sim : Sim) (ev : Ev) : Sim :=
+  { sim with
+    st := if ev.notif then (step e.cfg sim.st .notify).1 else sim.st
+    sched := sim.sched.filter (· != ev)
+    toks := ev.tok :: sim.toks }
 
-/-- all ways to get through the zero-time steps of the current instant, up to the first state in
-which time has advanced. -/
-def closure (cfg : Cfg) (script : List PSpec) (dd : Nat) : Nat → Sim → List Sim
+/-- has the loop goroutine something to do at this instant (code after `publishBlock` returned, or a
+ready `select` case)? -/
+def loopReady (cfg : Cfg) (s : St) : Bool :=
+  match s.flight with
+  | some f => f.fin ≤ s.now
+  | none => !(enabled cfg s).isEmpty
+
+/-- micro-steps possible at the current instant: deliver an event whose window is open, let the loop
+goroutine run (any ready case), or — only when the goroutine is blocked and no event is overdue —
+let one millisecond pass. -/
+def succs (e : Env) (sim : Sim) : List Sim :=
+  let now := sim.st.now
+  let ds := (sim.sched.filter (·.lo ≤ now)).map (deliver e sim)
+  let ready := loopReady e.cfg sim.st
+  let ls :=
+    if ready then
+      if sim.st.flight.isSome then [tickWith e sim 0]
+      else (List.range (enabled e.cfg sim.st).length).map (tickWith e sim)
+    else []
+  let adv := if !ready && sim.sched.all (fun ev => now < ev.hi) then [tickWith e sim 0] else []
+  ds ++ ls ++ adv
+
+/-- all ways through the zero-time steps of the current instant, up to the states in which time has
+advanced. -/
+def closure (e : Env) : Nat → Sim → List Sim
   | 0, sim => [sim]
   | fuel + 1, sim =>
-    (succs cfg script dd sim).flatMap fun s' =>
-      if s'.st.now > sim.st.now then [s'] else closure cfg script dd fuel s'
+    (succs e sim).flatMap fun s' =>
+      if s'.st.now > sim.st.now then [s'] else closure e fuel s'
 
-def dedup (l : List Sim) : List Sim := l.eraseDups
-
-def explore (cfg : Cfg) (script : List PSpec) (dd horizon : Nat) : Nat → List Sim → List Sim
+def explore (e : Env) (horizon : Nat) : Nat → List Sim → List Sim
   | 0, fr => fr
   | fuel + 1, fr =>
     match fr with
     | [] => []
     | s :: _ =>
       if s.st.now ≥ horizon then fr
-      else explore cfg script dd horizon fuel (dedup (fr.flatMap (closure cfg script dd 16)))
+      else explore e horizon fuel ((fr.flatMap (closure e 32)).eraseDups)
 
-def runsOf (cfg : Cfg) (script : List PSpec) (dd horizon : Nat) : List (List Nat) :=
-  let fr := explore cfg script dd horizon (horizon + 1)
-    [{ st := Lazy.init, sched := [], k := 0, starts := [] }]
-  (fr.map fun s => (s.starts.reverse.filter (· < horizon))).eraseDups
+def strLe (a b : String) : Bool := compare a b != Ordering.gt
 
-def countBelow (span : Nat) (r : List Nat) : Nat := (r.filter (· < span)).length
+def sortStrs (l : List String) : List String := (l.eraseDups).mergeSort strLe
 
-def showRuns (rs : List (List Nat)) : String :=
-  String.intercalate "|" ((rs.take 4).map natList)
+def finals (e : Env) (horizon : Nat) : List Sim :=
+  explore e horizon (horizon + 1) [{ st := Lazy.init, sched := [], k := 0, toks := [], starts := [] }]
+
+def outcomeOf (upto : Nat) (s : Sim) : String :=
+  let t := s.toks.reverse.take upto
+  if t.isEmpty then "-" else String.intercalate "," t
+
+def showSet (cap : Nat) (l : List String) : String :=
+  toString l.length ++ " " ++ String.intercalate "|" (l.take cap)
 
 def step (_ : Unit) (line : String) : Unit × String :=
   let o := parseOp line
@@ -108,19 +183,18 @@ def step (_ : Unit) (line : String) : Unit × String :=
     | "reset" => "ok"
     | "run" =>
       let mode := o.str "mode"
-      let b := o.nat "B"; let i := o.nat "I"; let span := o.nat "span"; let edge := o.nat "edge"
-      let dd := o.nat "dd"
+      let b := o.nat "B"; let i := o.nat "I"; let span := o.nat "span"
+      let dd := o.nat "dd"; let jit := o.nat "jit"; let upto := o.nat "upto"
       match parseScript (o.str "script") with
       | none => "bad-op"
       | some script =>
-        if (mode ≠ "lazy" && mode ≠ "normal") || b = 0 || i = 0 || span = 0 || span + edge > 30000 then "bad-op"
+        if (mode ≠ "lazy" && mode ≠ "normal") || b = 0 || i = 0 || span = 0 || span > 30000 || upto = 0 || jit > 500 then "bad-op"
         else
-          let cfg : Cfg := { block := b, idle := i, lazy := mode = "lazy" }
-          let rs := runsOf cfg script dd (span + edge)
-          let cs := rs.map (countBelow span)
-          let lo := cs.foldl min (cs.headD 0)
-          let hi := cs.foldl max 0
-          s!"count=[{lo},{hi}] runs={rs.length} {showRuns rs}"
+          let e : Env := { cfg := { block := b, idle := i, lazy := mode = "lazy" }, script := script, dd := dd, jit := jit }
+          let fs := finals e span
+          let outs := sortStrs (fs.map (outcomeOf upto))
+          let runs := sortStrs (fs.map fun s => natList s.starts.reverse)
+          s!"outs={showSet 12 outs} runs={showSet 4 runs}"
     | _ => "bad-op"
   ((), out)
 
